@@ -12,10 +12,14 @@ tmp=$(mktemp -d)
 trap 'rm -rf "$tmp"' EXIT
 cd harness
 go vet ./vk/ ./gen/ ./model/ >/dev/null 2>&1 || true
-go test -count=1 ./model/ ./vk/ ./gen/ 2>&1 | tail -5
+go test -count=1 ./model/ ./pbm/ 2>&1 | tail -5
 for d in c[0-9][0-9]; do
   [ -d "$d" ] || continue
   go test -c -vet=off -o "$tmp/$d.test" "./$d/" || { echo "setup: harness package $d does not build" >&2; exit 1; }
 done
 go build -o "$tmp/vmerge" ./cmd/vmerge
+# the extra build configurations (their first build is the slow part of a cold quick run)
+go test -c -vet=off -tags debug -o "$tmp/c03-debug.test" ./c03/ || { echo "setup: c03 does not build with -tags debug" >&2; exit 1; }
+go test -c -vet=off -tags verif -o "$tmp/c19-verif.test" ./c19/ || echo "setup: note: c19 does not build with -tags verif (hooks missing?) - the check falls back to the untagged build"
+go test -c -vet=off -tags verif -race -o "$tmp/c19-race.test" ./c19/ || go test -c -vet=off -race -o "$tmp/c19-race.test" ./c19/ || { echo "setup: c19 does not build with -race" >&2; exit 1; }
 echo "setup ok"
